@@ -43,7 +43,7 @@ def main():
           for p in props if p["id"] not in CHECKS]
     m = {
         "version": 1,
-        "setup_cmd": "cd /verif && /venv/bin/python translator/py2gallina.py /repo coq/theories/Gen && coq/build.sh",
+        "setup_cmd": "cd /verif && coq/build.sh",
         "hooks": {"guard": "TE_DENSITY_VERIF", "enable": "no hook in /repo is needed: checks drive the code from outside (PYTHONPATH=/repo, TE_DENSITY_VERIF=1 set for children)",
                   "baseline_off_cmd": "cd /repo && /venv/bin/python -m pytest -ra -q -p no:cacheprovider --timeout=900 --continue-on-collection-errors",
                   "source_commits": [], "add_only": True},
